@@ -88,6 +88,14 @@ def make_scenario(rng, seed):
             otext += a
             args += ["--say-err-hex", hx(b or "")]
             text += b or ""
+        console = rng.random() < 0.2
+        if not console and rng.random() < 0.25:
+            # a burst of 5..60 KiB in one write() just before the command ends: more than one pipe read is pending at exit
+            nl = rng.randint(300, 3500)
+            args += ["--say-big", "s%d:%d" % (i, nl)]
+            burst = "".join("<<s%d:B%06d>>\n" % (i, q) for q in range(nl))
+            text += burst
+            otext += burst
         if nch:
             args += ["--chunk-delay", str(rng.choice((0, 1, 5, 20)))]
         args += ["--sleep-before", str(rng.choice((0, 0, 10, 40)))]
@@ -96,7 +104,6 @@ def make_scenario(rng, seed):
             args += ["--exit", str(rng.choice((1, 2, 3, 42)))]
         if rng.random() < 0.2:
             st["restat"] = True
-        console = rng.random() < 0.2
         if console:
             st["pool"] = "console"
             # a console command writes to ninja's own stdout/stderr: only its stdout chunks show up in stdout
